@@ -133,8 +133,7 @@ func (c *Ctx) slashNormalisedBefore(fd *ast.FuncDecl, p ast.Expr, pos token.Pos)
 			isNorm := false
 			if a.cond != nil {
 				for _, cl := range splitConj(condLit{e: a.cond}) {
-					call, ok := unparen(cl.e).(*ast.CallExpr)
-					if ok && cl.neg && c.isPkgFunc(call, "strings", "HasSuffix") && len(call.Args) == 2 && isP(call.Args[0]) && endsWithSlashConst(c, call.Args[1]) {
+					if subj, isTest := c.slashSuffixTest(cl.e); isTest && cl.neg && subj == ptxt {
 						isNorm = true
 					}
 				}
@@ -307,8 +306,7 @@ func (c *Ctx) resultsSlashTerminated(call *ast.CallExpr) bool {
 		}
 		rt := exprString(r)
 		for _, cl := range c.literalsAt(gfd, rs) {
-			if cc, isCall := unparen(cl.e).(*ast.CallExpr); isCall && !cl.neg && c.isPkgFunc(cc, "strings", "HasSuffix") && len(cc.Args) == 2 &&
-				exprString(unparen(cc.Args[0])) == rt && endsWithSlashConst(c, cc.Args[1]) {
+			if subj, isTest := c.slashSuffixTest(cl.e); isTest && !cl.neg && subj == rt {
 				return true
 			}
 		}
@@ -316,4 +314,36 @@ func (c *Ctx) resultsSlashTerminated(call *ast.CallExpr) bool {
 		return true
 	})
 	return ok && n > 0
+}
+
+// slashSuffixTest: the expression tests that a string ends with "/": strings.HasSuffix(x, ".../") directly, or a
+// package predicate whose body is one return of such a test on its parameter. Returns the text of the subject.
+func (c *Ctx) slashSuffixTest(e ast.Expr) (string, bool) {
+	call, ok := unparen(e).(*ast.CallExpr)
+	if !ok {
+		return "", false
+	}
+	if c.isPkgFunc(call, "strings", "HasSuffix") && len(call.Args) == 2 && endsWithSlashConst(c, call.Args[1]) {
+		return exprString(unparen(call.Args[0])), true
+	}
+	g, _ := c.callee(call).(*types.Func)
+	if g == nil || g.Pkg() != c.Types || len(call.Args) != 1 {
+		return "", false
+	}
+	gfd := c.decl(g)
+	if gfd == nil || gfd.Body == nil || len(gfd.Body.List) != 1 {
+		return "", false
+	}
+	rs, ok := gfd.Body.List[0].(*ast.ReturnStmt)
+	if !ok || len(rs.Results) != 1 {
+		return "", false
+	}
+	subj, isTest := c.slashSuffixTest(rs.Results[0])
+	if !isTest {
+		return "", false
+	}
+	if p := c.paramObj(gfd, 0); p == nil || subj != p.Name() {
+		return "", false
+	}
+	return exprString(unparen(call.Args[0])), true
 }
